@@ -619,6 +619,12 @@ func opShapeItems() []Item {
 		}
 		out = append(out, Item{P: map[string]int64{"shape3": 1}, S: map[string]string{"op": o}})
 	}
+	// operand pairs of different rank with a non-square higher-rank operand, both orders
+	for _, o := range []string{"Add", "Sub", "Mul", "Div", "MatMul"} {
+		for pair := int64(1); pair <= 2; pair++ {
+			out = append(out, Item{P: map[string]int64{"shape3": 0, "pair": pair}, S: map[string]string{"op": o}})
+		}
+	}
 	return out
 }
 
